@@ -260,7 +260,39 @@ def special_rerun(prop, sc, tier, seed, harness, repo):
     return {"stats": {"cases": len(lines), "agree": agree, "distinct_nontrivial": len({l.split(' ', 3)[-1] for l in lines})}, "failures": failures[:3],
             "samples": []}
 
-CLASSIFIERS = {}
+def decode_strings(text):
+    return ["".join(chr(int(x)) for x in m.split()) for m in re.findall(r"\(s((?: \d+)*)\)", text)]
+
+
+def cmd_text_of_case(case):
+    """the written text of a generic command of the cmdargs stream: text pieces verbatim, expressions as {}"""
+    m = re.search(r"\(pieces(.*)\) \(reg", case)
+    if not m:
+        return ""
+    out = []
+    for kind, body in re.findall(r"\((t|e) (\(s[ 0-9]*\))", m.group(1)):
+        out.append(decode_strings(body)[0] if kind == "t" else "{}")
+    return "".join(out)
+
+
+def classify_cmd_name_prefix(params, fail):
+    name = cmd_text_of_case(fail.get("case", "")).lstrip()
+    return re.match(params["pattern"], name) is not None
+
+
+def classify_jump_spaces(params, fail):
+    srcs = " ".join(decode_strings(fail.get("case", "")))
+    return re.search(r"<<jump\s\s+", srcs) is not None
+
+
+CLASSIFIERS = {"cmd-name-prefix": classify_cmd_name_prefix, "jump-extra-space": classify_jump_spaces}
+
+
+def cmdargs_spec(io, spec, case):
+    if spec and len(io) > 1 and spec[0] != io[-1]:
+        return f"expected {spec[0][:200]} observed {io[-1][:200]}"
+    return None
+
 
 RUN_ASSUME = ["generated programs are Productive (every node starts with a line, so no jump cycle without a yielding statement)",
               "errors are compared as a class, never by message", "choices are kept in range while a choice is expected"]
@@ -399,6 +431,7 @@ PROPERTIES = {
                    rule="run/flow: random 1-4 node programs (nested options, if/elseif/else, set/declare, jumps by name and expression, stop, call, commands) x random in-range choices; non-trivial = at least 3 elements shown incl. an option group; distinct by hash of the case payload",
                    leanchecker=["Ysgo.Props.C01"]),
     "C02": runprop("expr", ("res", "log"), ("text",), 1500, 60000, nontrivial=lambda obs, case: any("probe(" in o for o in obs),
+                   extra_streams=[{"stream": "exprsyn", "profile": "all", "quick": 6000, "thorough": 150000, "nontrivial": lambda obs, case: not obs[0].startswith(("LOADERR", "LEXERR"))}],
                    rule="run/expr: expression trees of depth <= 5 over literals of the three types, variables, built-ins and logging probe functions, embedded in lines, conditions, assignments and calls; compared: rendered value or error, and the probe log (order and count of evaluations); non-trivial = at least one probe invocation observed",
                    leanchecker=["Ysgo.Props.C02"]),
     "C03": runprop("vars", ("res", "v"), ("text",), 1500, 60000, nontrivial=lambda obs, case: sum(1 for o in obs if obs_kind(o) == "HSET") >= 1 and len({parse_run(o)["v"] for o in obs}) >= 3,
@@ -436,6 +469,42 @@ PROPERTIES = {
                    nontrivial=lambda obs, case: sum(1 for o in obs if obs_kind(o) == "END") >= 2 and any(obs_kind(o) in ("L", "O") for o in obs),
                    rule="run/end: programs biased to reach an end (node end, <<stop>> at depth 0-3 with trailing statements, option group last) followed by further Next calls with arbitrary arguments; non-trivial = an element shown and at least two END results",
                    leanchecker=["Ysgo.Props.C12"]),
+    "C16": {
+        "level": "proof",
+        "streams": [{"stream": "bridge", "profile": "sample", "quick": 15000, "thorough": 400000, "predicate": no_panic,
+                     "nontrivial": lambda obs, case: any(o.startswith("REG OK") for o in obs)},
+                    {"stream": "bridge", "profile": "all", "quick": 0, "thorough": 5161246, "tier": "thorough", "predicate": no_panic,
+                     "nontrivial": lambda obs, case: any(o.startswith("REG OK") for o in obs), "timeout": 7200}],
+        "assumptions": ["reflect.Value.Call is modelled by its type-identity rule; Go/amd64 float-to-int conversions by the F64 model (validated by the f64 stream)"],
+        "rule": "bridge: function types built with reflect.FuncOf/MakeFunc over 0-3 parameters (+ optional variadic tail) and 0-2 results over {int..int64, uint, float32, float64, bool, string, error, chan error, <-chan error, chan<- error, named variants, struct, slice} x argument lists of length 0-4 over {number incl. fractional, negative, huge, NaN; boolean; string}, plus nil, typed nil functions and non-function values, registered through ConvertAndAddFunction/ConvertAndAddCommand of a real runner and called from a script; sample = seeded slice, all = the complete enumeration (5,161,246 elements) in thorough tier; non-trivial = registration accepted",
+        "leanchecker": ["Ysgo.Props.C16"],
+    },
+    "C17": {
+        "level": "proof",
+        "streams": [{"stream": "cmdargs", "profile": "sample", "quick": 6000, "thorough": 300000, "predicate": no_panic, "spec_check": cmdargs_spec,
+                     "nontrivial": lambda obs, case: any(o.startswith("RUN cmd:") for o in obs)},
+                    {"stream": "run", "profile": "cmds", "quick": 600, "thorough": 20000, "project": project_run(("res", "log"), ("text",)),
+                     "predicate": no_panic, "nontrivial": lambda obs, case: any("cmd:" in o for o in obs), "shrink": shrink_ops}],
+        "assumptions": ["the CommandMode keyword rules of the lexer are modelled by cmdHead; number words go through the F64 model of strconv.ParseFloat"],
+        "rule": "cmdargs: command statements over identifier-like and multi-byte words, every keyword exact and as a prefix (iffy settings jumpy elsewhere callous declared stopper ...), numeric/boolean look-alikes (Inf NaN 1e3 1_000 0x1p4 .5 5. +1 -3.5 007 1.50), inline expressions of each type, any Unicode white space; run through a real runner with recording handlers, unregistered names and <<stop>>; the model's SPEC line (what the property prescribes) is compared with the implementation as well; run/cmds ties dispatch-once-in-order to runner.go",
+        "leanchecker": ["Ysgo.Props.C17"],
+    },
+    "C20": {
+        "level": "proof",
+        "streams": [{"stream": "containers", "profile": "queue", "quick": 6000, "thorough": 250000, "predicate": no_panic, "project": lambda obs, case: obs[:1], "nontrivial": lambda obs, case: True},
+                    {"stream": "containers", "profile": "stack", "quick": 6000, "thorough": 250000, "predicate": no_panic, "project": lambda obs, case: obs[:1], "nontrivial": lambda obs, case: True},
+                    {"stream": "containers", "profile": "queue-exh", "quick": 20000, "thorough": 283000, "predicate": no_panic, "project": lambda obs, case: obs[:1], "nontrivial": lambda obs, case: True},
+                    {"stream": "tokens", "profile": "layout", "quick": 3000, "thorough": 200000, "project": lambda obs, case: obs[:2], "nontrivial": lambda obs, case: "I" in obs[0]},
+                    {"stream": "tokens", "profile": "bytes", "quick": 4000, "thorough": 250000, "nontrivial": lambda obs, case: True}],
+        "assumptions": ["the raw queue state (capacity, first, next) is informational only: the verdict uses results and sizes, so another initial capacity does not alarm"],
+        "rule": "containers: random and phase-structured operation sequences on the real Queue/Stack through the hook; queue-exh enumerates all words over {enq, deq, peek} up to length 11 plus 16k phase sequences forcing three growths from wrapped buffers (every (cap, first, next) for cap 8, 16, 32 is visited); tokens: INDENT/DEDENT/EOF projection of the real lexer on generated scripts in random (also ragged, noisy, mixed tab/space) layouts and on arbitrary bytes (balance predicate)",
+        "leanchecker": ["Ysgo.Props.C20"],
+    },
+    "C08": runprop("layout", ("res", "log", "v"), ("text", "dis", "tags"), 1500, 60000, nontrivial=run_nontrivial(2, ()),
+                   extra_streams=[{"stream": "tokens", "profile": "layout", "quick": 3000, "thorough": 200000, "nontrivial": lambda obs, case: "I" in obs[0]},
+                                  {"stream": "exprsyn", "profile": "valid", "quick": 4000, "thorough": 150000, "nontrivial": lambda obs, case: True}],
+                   rule="run/layout (metamorphic against the layout-free model): every generated program is written in a random layout (indent unit 1-8 spaces or 1-2 tabs, if-bodies indented or not, blank / whitespace-only / comment lines of random width between any two lines, trailing comments, LF/CRLF/CR, operator spellings, minimal/full/redundant parentheses, extra spaces in commands, 1-3 readers); the parsed tree must equal the generating AST and the trace the model's; tokens/layout ties the indentation model, exprsyn/valid the expression spellings and parentheses",
+                   leanchecker=["Ysgo.Props.C08Layout", "Ysgo.Props.C02Syntax"]),
     "C18": runprop("snap", ("res", "v", "vis"), ("text", "dis"), 600, 20000,
                    nontrivial=lambda obs, case: sum(1 for o in obs if o.startswith("NEW")) >= 1,
                    extra_streams=[{"stream": "run", "profile": "flow", "quick": 300, "thorough": 3000, "special": special_concurrent}],
